@@ -120,6 +120,8 @@ fn main() {
     }
     // streams of typed item types (docs/STREAMTYPED-NOTES.md): one line per property
     if prop == "C12" { stypes::run_c12(&mut sink, thorough, seed); }
+    if prop == "C12" { stypes::run_depth(&mut sink, thorough, seed); }
+    if prop == "C14" && !cfg!(feature = "rv") { stypes::run_depth(&mut sink, thorough, seed); }
     if prop == "C09" { stypes::run_c09(&mut sink, thorough, seed); }
     if prop == "C13" { stypes::run_c13(&mut sink, thorough, seed); }
     if prop == "C10" && !cfg!(feature = "rv") { stypes::run_c10(&mut sink, thorough, seed); }
